@@ -52,7 +52,14 @@ def sqrt_of(eng, st, x):
     if isinstance(x, ArrV):
         return eng.np_map(st, lambda e: sqrt_of(eng, st, e), x)
     if isinstance(x, Cx):
-        raise Unsupported("sqrt of a complex value")
+        # principal complex square root a + ib: a >= 0, a^2 - b^2 = re, 2ab = im (assumed mathematics)
+        fr, fi = _uf(eng, "csqrt_re", R, R, R), _uf(eng, "csqrt_im", R, R, R)
+        xr, xi = V.real_term(x.re), V.real_term(x.im)
+        a, b = fr(xr, xi), fi(xr, xi)
+        st.fact(a >= 0)
+        st.fact(a * a - b * b == xr)
+        st.fact(2 * a * b == xi)
+        return Cx(Sym(a, "real"), Sym(b, "real"))
     if V.is_concrete_num(x):
         r = _isqrt_exact(Fraction(x))
         if r is not None:
@@ -802,6 +809,17 @@ def saturate(eng, formulas, rounds=3, unroll_limit=6, level=0, goal=None):
                     x, y = a.arg(0), b.arg(0)
                     dom = z3.And(x >= 0, y >= 0) if nm == "sqrt" else z3.And(x > 0, y > 0)
                     new.append(z3.Implies(dom, z3.And(z3.Implies(x <= y, a <= b), z3.Implies(x < y, a < b), z3.Implies(y < x, b < a))))
+        # --- complex square root: defining equations at every occurrence
+        for a in [a for a in acc.get("csqrt_re", []) + acc.get("csqrt_im", []) if not _has_bound(a)]:
+            tag = ("csqrtdef", a.arg(0).get_id(), a.arg(1).get_id())
+            if tag in done:
+                continue
+            done.add(tag)
+            fr_, fi_ = _uf(eng, "csqrt_re", R, R, R), _uf(eng, "csqrt_im", R, R, R)
+            ar, ai = fr_(a.arg(0), a.arg(1)), fi_(a.arg(0), a.arg(1))
+            new.append(ar >= 0)
+            new.append(ar * ar - ai * ai == a.arg(0))
+            new.append(2 * ar * ai == a.arg(1))
         pw = [a for a in acc.get("pow", []) if not _has_bound(a)]
         for i, a in enumerate(pw):
             for b in pw[i + 1 :]:
